@@ -52,7 +52,6 @@ func TestVerifC13(t *testing.T) {
 		cases = vh.EnvInt("VERIF_C13_CASES", 40000)
 		big = 4
 	}
-	c13core.JoinProbe(out, vh.NewRand(vh.Seed()).Fork(998), 1000)
 	c13core.Run(out, vh.Seed(), targets, cases, big)
 }
 
